@@ -6,7 +6,7 @@ W=/tmp/lopdf-base-$$
 T=/tmp/vh-base-target-$$
 git -C /repo worktree add -q --detach $W $BASE || exit 2
 trap 'git -C /repo worktree remove --force '$W'; rm -rf '$T EXIT INT TERM
-cd /verif/harness && RUSTFLAGS="--cfg lopdf_verif" cargo build --release --offline --features par --target-dir $T --config "paths=[\"$W\"]" 2>&1 | tail -2
+cd /verif/harness && RUSTFLAGS="--cfg lopdf_verif" cargo build --release --offline --features par,nohook --target-dir $T --config "paths=[\"$W\"]" 2>&1 | tail -2
 cd /verif
 python3 - "$T" <<'PY'
 import json,subprocess,sys
